@@ -26,6 +26,9 @@ type FetchResp struct {
 	Set    []byte // message set
 	Cut    int    // >= 0: write only the first Cut bytes of the response frame (after the 4-byte size), then close the connection
 	Hang   bool   // never answer (the client times out)
+	// CutFn, when non-nil, overrides Cut: it is given the length of the response frame (everything after the 4-byte
+	// size field, correlation id included) and returns the Cut value to apply.
+	CutFn func(frameLen int) int
 }
 
 type Broker struct {
@@ -197,6 +200,9 @@ func (b *Broker) serve(c net.Conn, id int) {
 			be32(&body, int32(len(p.Set)))
 			body.Write(p.Set)
 			cut = p.Cut
+			if p.CutFn != nil {
+				cut = p.CutFn(body.Len())
+			}
 		default:
 			return
 		}
